@@ -126,7 +126,10 @@ GLM_FUNC_QUALIFIER glm_vec4 glm_vec4_round(glm_vec4 x)
 		glm_vec4 const or0 = _mm_or_ps(and0, _mm_set_ps1(8388608.0f));
 		glm_vec4 const add0 = glm_vec4_add(x, or0);
 		glm_vec4 const sub0 = glm_vec4_sub(add0, or0);
-		return sub0;
+		// |x| >= 2^23 is an integer already, and the addition above would round it
+		glm_vec4 const abs0 = _mm_and_ps(x, _mm_castsi128_ps(_mm_set1_epi32(0x7FFFFFFF)));
+		glm_vec4 const cmp0 = _mm_cmplt_ps(abs0, _mm_set_ps1(8388608.0f));
+		return _mm_or_ps(_mm_and_ps(cmp0, sub0), _mm_andnot_ps(cmp0, x));
 #	endif
 }
 
